@@ -158,3 +158,149 @@ end
 
 
 end Malt.C04
+
+/-! ### completeness: the checker rejects nothing that satisfies the property -/
+namespace Malt.C04
+open Malt.Py Malt.Conv Malt.Conv.NoNative
+
+mutual
+theorem completeE (cfg : Cfg) (sc : List String) (w : Bool) :
+    ∀ (e : Expr) (pos : Pos), OkE cfg sc w pos e → offE cfg sc w pos e = []
+  | .name .., _, _ => by simp [offE]
+  | .const .., _, _ => by simp [offE]
+  | .noneMarker, _, _ => by simp [offE]
+  | .call i f as ks, pos, h => by
+      cases h with
+      | call hc hf ha hk => simp [offE, hc, completeE cfg sc w f _ hf, completeEs cfg sc w as _ ha, completeEs cfg sc w ks _ hk]
+  | .boolop .., _, h => by cases h
+  | .ifexp .., _, h => by cases h
+  | .unary i op e, pos, h => by
+      cases h with
+      | unary hn he => simp [offE, hn, completeE cfg sc w e _ he]
+  | .compare i l ops rs, pos, h => by
+      cases h with
+      | compare hc hl hr => simp [offE, hc, completeE cfg sc w l _ hl, completeEs cfg sc w rs _ hr]
+  | .binop i op l r, pos, h => by
+      cases h with
+      | binop h1 h2 => simp [offE, completeE cfg sc w l _ h1, completeE cfg sc w r _ h2]
+  | .attr i v a c, pos, h => by
+      cases h with
+      | attr h1 => simp [offE, completeE cfg sc w v _ h1]
+  | .subscript i v s c, pos, h => by
+      cases h with
+      | subscript h1 h2 => simp [offE, completeE cfg sc w v _ h1, completeE cfg sc w s _ h2]
+  | .keyword i a hh v, pos, h => by
+      cases h with
+      | keyword h1 => simp [offE, completeE cfg sc w v _ h1]
+  | .lambda i as b, pos, h => by
+      cases h with
+      | lambda h1 h2 => simp [offE, completeE cfg sc w as _ h1, completeE cfg sc w b _ h2]
+  | .seq i k es c, pos, h => by
+      cases h with
+      | seq h1 => simp [offE, completeEs cfg sc w es _ h1]
+  | .starred i v c, pos, h => by
+      cases h with
+      | starred h1 => simp [offE, completeE cfg sc w v _ h1]
+  | .namedexpr i t v, pos, h => by
+      cases h with
+      | namedexpr h1 h2 => simp [offE, completeE cfg sc w t _ h1, completeE cfg sc w v _ h2]
+  | .comp i k es gs, pos, h => by
+      cases h with
+      | comp h1 h2 => simp [offE, completeEs cfg sc w es _ h1, completeEs cfg sc w gs _ h2]
+  | .comprehension i t it ifs a, pos, h => by
+      cases h with
+      | comprehension h1 h2 h3 =>
+          simp [offE, completeE cfg sc w t _ h1, completeE cfg sc w it _ h2, completeEs cfg sc w ifs _ h3]
+  | .arguments i a b c d e f g, pos, h => by
+      cases h with
+      | arguments h1 h2 h3 h4 h5 h6 h7 =>
+          simp [offE, completeEs cfg sc w a _ h1, completeEs cfg sc w b _ h2, completeEs cfg sc w c _ h3,
+            completeEs cfg sc w d _ h4, completeEs cfg sc w e _ h5, completeEs cfg sc w f _ h6, completeEs cfg sc w g _ h7]
+  | .arg i n an, pos, h => by
+      cases h with
+      | arg h1 => simp [offE, completeEs cfg sc w an _ h1]
+  | .withitem i c v, pos, h => by
+      cases h with
+      | withitem h1 h2 => simp [offE, completeE cfg sc w c _ h1, completeEs cfg sc w v _ h2]
+  | .other i k ats ks, pos, h => by
+      cases h with
+      | other h1 => simp [offE, completeEs cfg sc w ks _ h1]
+theorem completeEs (cfg : Cfg) (sc : List String) (w : Bool) :
+    ∀ (es : List Expr) (ps : List Pos), OkEs cfg sc w ps es → offEs cfg sc w ps es = []
+  | [], _, _ => by simp [offEs]
+  | e :: es, ps, h => by
+      cases h with
+      | cons h1 h2 => simp [offEs, completeE cfg sc w e _ h1, completeEs cfg sc w es _ h2]
+end
+
+mutual
+theorem completeS (cfg : Cfg) :
+    ∀ (s : Stmt) (sc roles : List String) (tail : Bool), OkS cfg sc roles tail s → offS cfg sc roles tail s = []
+  | .if_ .., _, _, _, h => by cases h
+  | .while_ .., _, _, _, h => by cases h
+  | .for_ .., _, _, _, h => by cases h
+  | .break_ .., _, _, _, h => by cases h
+  | .continue_ .., _, _, _, h => by cases h
+  | .ret i v, sc, roles, tail, h => by
+      cases h with
+      | ret h1 => simp [offS, completeEs cfg sc false v _ h1]
+  | .functionDef i n as b ds rs isA, sc, roles, tail, h => by
+      cases h with
+      | functionDef h1 h2 h3 h4 =>
+          have hb := completeB cfg b _ _ _ h4
+          simp only [offS, completeE cfg sc false as _ h1, completeEs cfg sc false ds _ h2, completeEs cfg sc false rs _ h3,
+            hb, List.append_nil]
+  | .classDef i n bs ks b ds, sc, roles, tail, h => by
+      cases h with
+      | classDef h1 h2 h3 h4 =>
+          simp [offS, completeEs cfg sc false bs _ h1, completeEs cfg sc false ks _ h2, completeEs cfg sc false ds _ h3,
+            completeB cfg b _ _ _ h4]
+  | .with_ i its b isA, sc, roles, tail, h => by
+      cases h with
+      | with_ h1 h2 => simp [offS, completeEs cfg sc true its _ h1, completeB cfg b _ _ _ h2]
+  | .try_ i b hs e f, sc, roles, tail, h => by
+      cases h with
+      | try_ h1 h2 h3 h4 =>
+          simp [offS, completeB cfg b _ _ _ h1, completeB cfg hs _ _ _ h2, completeB cfg e _ _ _ h3, completeB cfg f _ _ _ h4]
+  | .handler i t n b, sc, roles, tail, h => by
+      cases h with
+      | handler h1 h2 => simp [offS, completeEs cfg sc false t _ h1, completeB cfg b _ _ _ h2]
+  | .delete i ts, sc, roles, tail, h => by
+      cases h with
+      | delete h1 => simp [offS, completeEs cfg sc false ts _ h1]
+  | .assign i ts v, sc, roles, tail, h => by
+      cases h with
+      | assign h1 h2 => simp [offS, completeEs cfg sc false ts _ h1, completeE cfg sc false v _ h2]
+  | .augAssign i t op v, sc, roles, tail, h => by
+      cases h with
+      | augAssign h1 h2 => simp [offS, completeE cfg sc false t _ h1, completeE cfg sc false v _ h2]
+  | .annAssign i t an v s, sc, roles, tail, h => by
+      cases h with
+      | annAssign h1 h2 h3 =>
+          simp [offS, completeE cfg sc false t _ h1, completeE cfg sc false an _ h2, completeEs cfg sc false v _ h3]
+  | .raise i e c, sc, roles, tail, h => by
+      cases h with
+      | raise h1 h2 => simp [offS, completeEs cfg sc false e _ h1, completeEs cfg sc false c _ h2]
+  | .assert_ i t m, sc, roles, tail, h => by
+      cases h with
+      | assert_ h1 h2 => simp [offS, completeE cfg sc false t _ h1, completeEs cfg sc false m _ h2]
+  | .expr i v, sc, roles, tail, h => by
+      cases h with
+      | expr h1 => simp [offS, completeE cfg sc false v _ h1]
+  | .import_ .., _, _, _, _ => by simp [offS]
+  | .importFrom .., _, _, _, _ => by simp [offS]
+  | .global .., _, _, _, _ => by simp [offS]
+  | .nonlocal .., _, _, _, _ => by simp [offS]
+  | .pass .., _, _, _, _ => by simp [offS]
+  | .other i k es bs, sc, roles, tail, h => by
+      cases h with
+      | other h1 h2 => simp [offS, completeEs cfg sc false es _ h1, completeB cfg bs _ _ _ h2]
+theorem completeB (cfg : Cfg) :
+    ∀ (ss : List Stmt) (sc roles : List String) (tail : Bool), OkB cfg sc roles tail ss → offB cfg sc roles tail ss = []
+  | [], _, _, _, _ => by simp [offB]
+  | s :: ss, sc, roles, tail, h => by
+      cases h with
+      | cons h1 h2 => simp [offB, completeS cfg s _ _ _ h1, completeB cfg ss _ _ _ h2]
+end
+
+end Malt.C04
